@@ -107,6 +107,10 @@ func negOp(op token.Token) token.Token {
 		return token.NEQ
 	case token.NEQ:
 		return token.EQL
+	case token.LSS:
+		return token.GEQ
+	case token.GEQ:
+		return token.LSS
 	}
 	return token.ILLEGAL
 }
@@ -188,6 +192,20 @@ func (p *Prog) factsAt(stack []ast.Node, invalidates func(s ast.Stmt) bool) []fa
 				list = b.List
 			} else {
 				list = s.(*ast.CaseClause).Body
+			}
+			// inside `switch X { case k: ... }` the tag equals k; in the default arm it differs from every listed constant
+			if cl, ok := s.(*ast.CaseClause); ok && i >= 2 {
+				if sw, ok := stack[i-2].(*ast.SwitchStmt); ok && sw.Tag != nil {
+					if len(cl.List) == 1 {
+						addCond(&ast.BinaryExpr{X: sw.Tag, Op: token.EQL, Y: cl.List[0]}, true)
+					} else if cl.List == nil {
+						for _, cc := range sw.Body.List {
+							for _, e := range cc.(*ast.CaseClause).List {
+								addCond(&ast.BinaryExpr{X: sw.Tag, Op: token.EQL, Y: e}, false)
+							}
+						}
+					}
+				}
 			}
 			for _, st := range list {
 				if st == stack[i+1] || containsNode(st, site) {
